@@ -69,12 +69,14 @@ def check(run, ctx):
     sev_ok = wkeys.get("severity") == "self.severity.value" and any(isinstance(n, ast.Call) and call_name(n) == "Severity" for k in call.keywords if k.arg == "severity" for n in ast.walk(k.value))
     (run.ok(P2, "values", "each key carries its own field; severity via .value / Severity(...)") if not wrong_val and sev_ok else run.finding(P2, "Violation codec", f"values:{wrong_val or 'severity'}", "a key does not carry its own field's value", td.loc))
     wk = [n for n in ast.walk(w.node) if is_call_named(n, "to_dict")]
-    ef = repo.func(f"{ORCH}.Orchestrator._extract_violations_from_future")
+    ef = repo.func_by_role(f"{ORCH}.Orchestrator._extract_violations_from_future", "turns one worker future into violations (future.result() -> Violation.from_dict)",
+                           lambda g: any(is_call_named(n, "result") for n in ast.walk(g.node)) and any(is_call_named(n, "from_dict") for n in ast.walk(g.node)))
     rk = [n for n in ast.walk(ef.node) if is_call_named(n, "from_dict")]
     (run.ok(P2, "codec use", "worker encodes with to_dict, parent decodes with from_dict") if wk and rk else run.finding(P2, "parallel codec", "unused", "the worker/parent no longer use the to_dict/from_dict pair", w.loc))
 
     P3 = run.rule("P3", "all futures are consumed; small inputs fall back to lint_files; the worker reaches rules only through lint_file", floor=4)
-    ex = repo.func(f"{ORCH}.Orchestrator._execute_parallel_linting")
+    ex = repo.func_by_role(f"{ORCH}.Orchestrator._execute_parallel_linting", "submits one worker call per file to the process pool",
+                           lambda g: any(is_call_named(n, "submit") for n in ast.walk(g.node)))
     sub = [n for n in ast.walk(ex.node) if is_call_named(n, "submit")]
     ok = len(sub) == 1 and sub[0].args and ast.unparse(sub[0].args[0]) == "_lint_file_worker"
     comp = next((n for n in ast.walk(ex.node) if isinstance(n, ast.ListComp) and any(x is sub[0] for x in ast.walk(n))), None) if sub else None
@@ -85,7 +87,8 @@ def check(run, ctx):
     fpar = ex.node.args.args[1].arg
     ok = ok and isinstance(wi, ast.ListComp) and not wi.generators[0].ifs and ast.unparse(wi.generators[0].iter) == fpar
     (run.ok(P3, "_execute_parallel_linting", "one future per file, none filtered") if ok else run.finding(P3, "_execute_parallel_linting", "submission", "not every file is submitted exactly once to _lint_file_worker", ex.loc))
-    cr = repo.func(f"{ORCH}.Orchestrator._collect_parallel_results")
+    cr = repo.func_by_role(f"{ORCH}.Orchestrator._collect_parallel_results", "consumes the futures with as_completed",
+                           lambda g: any(is_call_named(n, "as_completed") for n in ast.walk(g.node)))
     loop = next((n for n in ast.walk(cr.node) if isinstance(n, ast.For) and is_call_named(n.iter, "as_completed")), None)
     ok = loop is not None and ast.unparse(loop.iter.args[0]) == cr.node.args.args[1].arg and not any(isinstance(n, (ast.Break, ast.Return)) for n in ast.walk(loop)) and any(is_call_named(n, "extend") for n in ast.walk(loop))
     (run.ok(P3, "_collect_parallel_results", "as_completed(futures) consumed to the end, results extended") if ok else run.finding(P3, "_collect_parallel_results", "consumption", "a completed future's violations can be dropped (early exit / not extended)", cr.loc))
@@ -99,26 +102,42 @@ def check(run, ctx):
 
     P5 = run.rule("P5", "the work item forwards (path as iterated, self.project_root, self.config) unchanged and the worker lints exactly that path", floor=2,
                   decides="a worker judges the same path spelling, project root and configuration as the sequential loop (exclusions, ignore patterns and reported file_path all read the path)")
-    tup = wi.elt if isinstance(wi, ast.ListComp) else None
+    # the work item as slot -> expression: a 3-tuple (slots 0,1,2) or a record built with keyword arguments (slots = field names)
+    elt = wi.elt if isinstance(wi, ast.ListComp) else None
     tgt = wi.generators[0].target if isinstance(wi, ast.ListComp) else None
-    if isinstance(tup, ast.Tuple) and isinstance(tgt, ast.Name) and len(tup.elts) == 3:
-        want = [tgt.id, "self.project_root", "self.config"]
-        got = [ast.unparse(e) for e in tup.elts]
-        if got == want:
-            run.ok(P5, "work item", f"({', '.join(got)}) for {tgt.id} in file_paths")
-        else:
-            bad = next(g for g, w_ in zip(got, want) if g != w_)
-            run.finding(P5, "_execute_parallel_linting", f"work-item:{bad}", f"the work item carries `{bad}` instead of the value the sequential path uses ({want}): workers see a different path spelling / root / configuration than lint_files does, so exclusion by path component, ignore patterns and the reported file_path differ under --parallel", ex.loc)
-    else:
-        run.require(False, "_execute_parallel_linting: work items are no longer 3-tuples built by one comprehension over file_paths - P5 cannot decide the new shape")
-    unpack = next((n for n in w.node.body if isinstance(n, ast.Assign) and isinstance(n.targets[0], ast.Tuple) and isinstance(n.value, ast.Name) and n.value.id == w.node.args.args[0].arg), None)
-    names = [e.id for e in unpack.targets[0].elts if isinstance(e, ast.Name)] if unpack is not None else []
+    prod = None
+    if isinstance(elt, ast.Tuple):
+        prod = {i_: ast.unparse(e) for i_, e in enumerate(elt.elts)}
+    elif isinstance(elt, ast.Call) and not elt.args and elt.keywords and all(k.arg for k in elt.keywords):
+        prod = {k.arg: ast.unparse(k.value) for k in elt.keywords}
+    run.require(prod is not None and isinstance(tgt, ast.Name) and len(prod) == 3, "_execute_parallel_linting: work items are neither 3-tuples nor 3-field records built by one comprehension over file_paths - P5 cannot decide the new shape")
+    # the worker side: which slot reaches lint_file(...), Orchestrator(project_root=..., config=...)
+    wpar = w.node.args.args[0].arg
+    unpack = next((n for n in w.node.body if isinstance(n, ast.Assign) and isinstance(n.targets[0], ast.Tuple) and isinstance(n.value, ast.Name) and n.value.id == wpar), None)
+    names = {e.id: i_ for i_, e in enumerate(unpack.targets[0].elts) if isinstance(e, ast.Name)} if unpack is not None else {}
+    def slot_of(e):
+        if isinstance(e, ast.Name) and e.id in names:
+            return names[e.id]
+        if isinstance(e, ast.Attribute) and isinstance(e.value, ast.Name) and e.value.id == wpar:
+            return e.attr
+        if isinstance(e, ast.Subscript) and isinstance(e.value, ast.Name) and e.value.id == wpar and isinstance(e.slice, ast.Constant):
+            return e.slice.value
+        return None
     lfc = next((n for n in ast.walk(w.node) if is_call_named(n, "lint_file")), None)
     oc = next((n for n in ast.walk(w.node) if isinstance(n, ast.Call) and call_name(n) == "Orchestrator"), None)
-    rebinds = [n for n in ast.walk(w.node) if isinstance(n, (ast.Assign, ast.AugAssign, ast.AnnAssign)) and n is not unpack and any(isinstance(x, ast.Name) and isinstance(x.ctx, ast.Store) and x.id in names for x in ast.walk(n))]
-    run.require(len(names) == 3 and lfc is not None and oc is not None, "_lint_file_worker: tuple unpacking / Orchestrator(...) / lint_file(...) not found - P5 cannot decide the new shape")
-    if len(names) == 3 and lfc is not None and oc is not None and not rebinds and [ast.unparse(a) for a in lfc.args] == [names[0]] and {k.arg: ast.unparse(k.value) for k in oc.keywords} == {"project_root": names[1], "config": names[2]}:
-        run.ok(P5, "worker", f"{', '.join(names)} = args; Orchestrator(project_root={names[1]}, config={names[2]}).lint_file({names[0]})")
+    run.require(lfc is not None and oc is not None and len(lfc.args) == 1, "_lint_file_worker: Orchestrator(...) / lint_file(<one argument>) not found - P5 cannot decide the new shape")
+    rebinds = [n for n in ast.walk(w.node) if isinstance(n, (ast.Assign, ast.AugAssign, ast.AnnAssign)) and n is not unpack and any(isinstance(x, ast.Name) and isinstance(x.ctx, ast.Store) and (x.id in names or x.id == wpar) for x in ast.walk(n))]
+    okw = {k.arg: slot_of(k.value) for k in oc.keywords}
+    s_path, s_root, s_cfg = slot_of(lfc.args[0]), okw.get("project_root"), okw.get("config")
+    run.require(None not in (s_path, s_root, s_cfg) and all(x in prod for x in (s_path, s_root, s_cfg)), "_lint_file_worker: the arguments of lint_file / Orchestrator are not plain slots of the work item - P5 cannot decide the new shape")
+    want = {s_path: tgt.id, s_root: "self.project_root", s_cfg: "self.config"}
+    wrong = [(k_, prod[k_], v_) for k_, v_ in want.items() if prod[k_] != v_]
+    if len({s_path, s_root, s_cfg}) == 3 and not wrong and not rebinds:
+        run.ok(P5, "work item", f"{prod} for {tgt.id} in file_paths")
+        run.ok(P5, "worker", f"Orchestrator(project_root=<{s_root}>, config=<{s_cfg}>).lint_file(<{s_path}>)")
+    elif wrong:
+        bad = wrong[0][1]
+        run.finding(P5, "_execute_parallel_linting", f"work-item:{bad}", f"the work item carries `{bad}` instead of the value the sequential path uses ({wrong[0][2]}): workers see a different path spelling / root / configuration than lint_files does, so exclusion by path component, ignore patterns and the reported file_path differ under --parallel", ex.loc)
     else:
         run.finding(P5, "_lint_file_worker", "worker-args", "the worker does not lint exactly the forwarded path with exactly the forwarded project root and configuration", w.loc)
 
